@@ -171,7 +171,22 @@ func (w *worker) evalRoundTrip(k *kase, res *result) {
 	for _, f := range []lz.FileFormat{lz.FileFormatLZMA, lz.FileFormatXz} {
 		fn := fmtName(f)
 		encOp := "enc " + fn + " " + hlib.Hex(src)
-		encOut, enc := implEnc(f, src)
+		var encOut, decOut string
+		var enc []byte
+		var d decRes
+		if k.light {
+			// Go round trip only: same calls, no hex strings
+			encOut = hlib.Guard(func() string {
+				e, err := f.Encode(nil, src)
+				if err != nil {
+					return "err " + lz.VerifErrClass(err)
+				}
+				enc = e
+				return "ok -"
+			})
+		} else {
+			encOut, enc = implEnc(f, src)
+		}
 		if k.model {
 			res.ops = append(res.ops, opLine{encOp, encOut})
 		}
@@ -179,8 +194,18 @@ func (w *worker) evalRoundTrip(k *kase, res *result) {
 			res.fail("encode:"+fn+":"+strings.Fields(encOut)[0], "Encode failed or panicked: "+encOut, clip(encOp))
 			continue
 		}
-		decOp := "dec " + fn + " " + hlib.Hex(enc)
-		decOut, d := implDec(f, enc)
+		decOp := ""
+		if k.light {
+			s, ok := hlib.WithTimeout(120*time.Second, func() string {
+				o, rest, err := f.Decode(nil, enc)
+				d.out, d.rest, d.err = o, len(rest), lz.VerifErrClass(err)
+				return "ok"
+			})
+			d.tmo, d.panic = !ok, ok && s == "panic"
+		} else {
+			decOp = "dec " + fn + " " + hlib.Hex(enc)
+			decOut, d = implDec(f, enc)
+		}
 		if k.model {
 			res.ops = append(res.ops, opLine{decOp, decOut})
 		}
@@ -203,6 +228,9 @@ func (w *worker) evalRoundTrip(k *kase, res *result) {
 			if u, ok := xzIndexFields(src, enc); ok {
 				countUvClasses(res, "unpadded-size", u)
 				countUvClasses(res, "uncompressed-size", uint64(len(src)))
+				// the two padding loops of encodeXz: bytes added after the end marker and after the index record
+				res.count(fmt.Sprintf("xz-block-padding-bytes=%d", (4-int((u-4)%4))%4))
+				res.count(fmt.Sprintf("xz-index-padding-bytes=%d", (4-(2+uvLen(u)+uvLen(uint64(len(src))))%4)%4))
 			}
 		}
 		if len(k.pre) > 0 {
@@ -321,16 +349,43 @@ func xzToolPass(xzPath string, cases []*kase, results []*result) (runs int) {
 				}
 				continue
 			}
-			for j, i := range idx[b:e] {
+			// the batch failed: find ONE culprit by bisection (a changed encoder can make every batch fail,
+			// and one process per file would then cost minutes), report it with the tool's own message
+			sub := idx[b:e]
+			okRange := func(lo, hi int) bool {
+				var w []byte
+				for _, i := range sub[lo:hi] {
+					w = append(w, cases[i].data...)
+				}
+				a := append([]string{"-dc", "--format=" + fn}, files[lo:hi]...)
+				o, _, err := hlib.RunCmd(600*time.Second, "", nil, nil, xzPath, a...)
+				runs += hi - lo
+				return err == nil && bytes.Equal(o, w)
+			}
+			lo, hi := 0, len(sub)
+			for hi-lo > 1 {
+				mid := (lo + hi) / 2
+				if !okRange(lo, mid) {
+					hi = mid
+				} else {
+					lo = mid
+				}
+			}
+			{
+				i := sub[lo]
 				src := cases[i].data
 				encOp := "enc " + fn + " " + hlib.Hex(src)
-				o, se, err := hlib.RunCmd(120*time.Second, "", nil, nil, xzPath, "-dc", "--format="+fn, files[j])
+				o, se, err := hlib.RunCmd(120*time.Second, "", nil, nil, xzPath, "-dc", "--format="+fn, files[lo])
 				if err != nil {
 					results[i].fail("conformance:xz-tool:"+fn+":rejected", fmt.Sprintf("xz -dc --format=%s rejected the encoding: %v: %s", fn, err, strings.TrimSpace(strings.ReplaceAll(string(se), dir, ""))), clip(encOp))
 				} else if !bytes.Equal(o, src) {
 					results[i].fail("conformance:xz-tool:"+fn+":data", fmt.Sprintf("xz -dc --format=%s printed different bytes (len %d vs %d)", fn, len(o), len(src)), clip(encOp))
+				} else {
+					results[i].fail("conformance:xz-tool:"+fn+":batch", "xz -dc accepted this file alone but a batch containing it failed", clip(encOp))
 				}
-				os.Remove(files[j])
+			}
+			for _, name := range files {
+				os.Remove(name)
 			}
 		}
 	}
@@ -423,6 +478,9 @@ func xzStructure(src, enc []byte, res *result, replay string) {
 		}
 		raw := lz.VerifEncodeRaw(nil, src[off:end])
 		margin := (len(raw) + 6) - (end - off + 3) // >= 0: uncompressed chunk chosen
+		if len(raw) >= 0xFFFC && len(raw) <= 0x10003 {
+			res.count(fmt.Sprintf("xz-chunk:len(rawLZMA)=%d(16-bit packed-size field limit is 65536)", len(raw)))
+		}
 		switch {
 		case margin == 0:
 			res.count("xz-choice-margin:0(raw,tie)")
